@@ -65,6 +65,8 @@ def cmp_full(fields=(0, 1, 3, 4, 5, 6, 7, 8), ctxs=None):
                     return ("state-differs-from-reference", "tick %d snapshot fields %r: %r, reference %r" % (k, fields, xa, ya))
             if rr.ticks[k]["shares"] != ro.ticks[k]["shares"]:
                 return ("shares-differ-from-reference", "tick %d shares %r, reference %r" % (k, rr.ticks[k]["shares"], ro.ticks[k]["shares"]))
+            if rr.ticks[k].get("marks") != ro.ticks[k].get("marks"):
+                return ("marks-differ-from-reference", "tick %d marks %r, reference %r" % (k, rr.ticks[k].get("marks"), ro.ticks[k].get("marks")))
         if len(rr.ticks) != len(ro.ticks):
             return ("run-length-differs", "real ran %d ticks, reference %d" % (len(rr.ticks), len(ro.ticks)))
         a = [e for e in rr.events[-1] if ctxs is None or e[2] in ctxs]
@@ -120,6 +122,9 @@ def explore_and_check(p, idx, label, prog, mons=(), cmp=None, depth=None, alphab
     p.transitions += st["transitions"]
     p.traces += st["runs"]
     p.capped = p.capped or st["capped"]
+    if st["capped"]:
+        p.notes["programs whose BFS hit the depth cap before fixpoint"] += 1
+        p.extra.setdefault("first_capped_program", label)
     p.nontrivial(label)
     if idx % sample_every == 0:
         p.sample(dict(label=label, script=lang.emit(prog), bfs=st))
